@@ -2,7 +2,9 @@
    is the empty string.  Transports: mock http fasthttp tcp unix ws udp.  A table of comparison
    sites is given for the transport at hand as letters: B (bytes in hand: len(body), n-8),
    D (declared length field), C (ContentLength); "-" for none.
-     A <tr> <sites> <max> <decl|-> <sent> <valid 0/1>
+     A <tr> <sites> <get 0/1> <flag 0/1> <max> <decl|-> <sent> <valid 0/1>
+         (sites: the comparisons on the path of THIS class of request; get: method GET; flag: index word
+          with its top bit set)
          -> "v=<P:n|413|INBAND|ERR|400|STARVE|MALFORMED> io=<n|-> fn=<0|1> client=<...> alt=<...> covers=<0|1>
              framed=<n|-> truthful=<0|1>"
      T                      -> the pinned and the original (pre-fix) table, "tr=letters ..." twice, separated by "|"
@@ -91,21 +93,22 @@ let zero_buffer n = Stdlib.List.init n (fun _ -> byte_tab.(0))
 
 let run line =
   match split_ws line with
-  | ["A"; tr; sites; max; decl; sent; valid] ->
+  | ["A"; tr; sites; get; flag; max; decl; sent; valid] ->
     let tr = transport_of tr and qs = quantities_of sites in
-    let table = fun _ -> qs in
+    let table = fun _ _ _ -> qs in
+    let k = { Limit.r_get = (get = "1"); r_flag = (flag = "1") } in
     let max = z_of_string max and decl = decl_of decl and sent = z_of_string sent in
-    let (v, log) = Limit.serve table tr max decl sent (valid = "1") in
+    let (v, log) = Limit.serve table tr max k decl sent (valid = "1") in
     let io = match log with Limit.EvIOPlugin n :: _ -> string_of_z n | _ -> "-" in
     let fn = if Stdlib.List.mem Limit.EvInvoke log then "1" else "0" in
-    let framed = match Limit.framed tr decl sent with Some n -> string_of_z n | None -> "-" in
+    let framed = match Limit.framed tr k decl sent with Some n -> string_of_z n | None -> "-" in
     (* the other thing the caller may get when the server's teardown overtakes its answer (tcp, unix) *)
     let alt = outcome_str (Limit.caller_outcome false tr v true Limit.TeardownFirst) in
     Printf.sprintf "v=%s io=%s fn=%s client=%s alt=%s covers=%s framed=%s truthful=%s"
       (verdict_str v) io fn (outcome_str (Limit.client_decode (Limit.reply_of v))) alt
-      (b01 (Limit.covers tr qs)) framed (b01 (Limit.truthful tr decl sent))
+      (b01 (Limit.covers tr (decl = None) qs)) framed (b01 (Limit.truthful tr k decl sent))
   | ["T"] ->
-    let show tab = String.concat " " (Stdlib.List.map (fun tr -> name_of tr ^ "=" ^ letters_of (tab tr)) Limit.all_transports) in
+    let show tab = String.concat " " (Stdlib.List.map (fun tr -> name_of tr ^ "=" ^ letters_of (tab tr Limit.plain false)) Limit.all_transports) in
     show Limit.pinned_sites ^ " | " ^ show Limit.original_sites
   | ["H"; "sock"; len; idx] -> hex_of_bytes (Frame.sock_make_header (z_of_string len) (z_of_string idx))
   | ["H"; "udp"; len; idx] -> hex_of_bytes (Frame.udp_make_header (z_of_string len) (z_of_string idx))
